@@ -476,7 +476,7 @@ func eeaWalk(x *mon.Ctx) {
 	if err := refzuc.SelfTest(); err != nil {
 		x.HarnessError("%v", err)
 	}
-	walks := raceScale(x, x.Scale(12000, 150000))
+	walks := raceScale(x, x.Scale(6000, 150000))
 	for i := 0; i < walks; i++ {
 		c := x.Begin("walk %d: random history on one cipher object (constructor, key, operations drawn from the case PRNG)", i)
 		if c == nil {
